@@ -1077,26 +1077,43 @@ theorem offset_eq (A : Arith F) (m : Mgr F) (s j : Int) (x : F) :
     simp [h']
 
 theorem fromPort_congr (A : Arith F) (au au' : Automation F) (h : FromPort A au)
+    (h0 : au'.bound = au.bound)
     (h1 : au'.path = au.path) (h2 : au'.ty = au.ty) (h3 : au'.pmin = au.pmin) (h4 : au'.pmax = au.pmax)
     (h5 : au'.logScale = au.logScale) : FromPort A au' := by
-  obtain ⟨au0, b, path, p, hw, hp, hb, e1, e2, e3, e4, e5⟩ := h
-  exact ⟨au0, b, path, p, hw, hp, hb, h1.trans e1, h2.trans e2, h3.trans e3, h4.trans e4, h5.trans e5⟩
+  obtain ⟨au0, b, path, p, hw, hp, hl, hb, e0, e1, e2, e3, e4, e5⟩ := h
+  exact ⟨au0, b, path, p, hw, hp, hl, hb, h0.trans e0, h1.trans e1, h2.trans e2, h3.trans e3, h4.trans e4,
+    h5.trans e5⟩
 
-theorem good_remap (A : Arith F) (au : Automation F) (h : au.used = true → FromPort A au) :
+theorem good_remap (A : Arith F) (au : Automation F) (h : au.used = true → FromPort A au)
+    (h' : au.used = false → au.bound = none) :
     Good A (Automation.remap A au) := by
+  refine ⟨?_, h'⟩
   intro hu
-  exact ⟨fromPort_congr A au _ (h hu) rfl rfl rfl rfl rfl, rfl⟩
+  exact ⟨fromPort_congr A au _ (h hu) rfl rfl rfl rfl rfl rfl, rfl⟩
 
 theorem good_gain (A : Arith F) (au : Automation F) (x : F) (h : Good A au) :
     Good A (Automation.remap A { au with gain := x }) :=
-  good_remap A _ (fun hu => fromPort_congr A au _ (h hu).1 rfl rfl rfl rfl rfl)
+  good_remap A _ (fun hu => fromPort_congr A au _ (h.1 hu).1 rfl rfl rfl rfl rfl rfl) h.2
 
 theorem good_offset (A : Arith F) (au : Automation F) (x : F) (h : Good A au) :
     Good A (Automation.remap A { au with offset := x }) :=
-  good_remap A _ (fun hu => fromPort_congr A au _ (h hu).1 rfl rfl rfl rfl rfl)
+  good_remap A _ (fun hu => fromPort_congr A au _ (h.1 hu).1 rfl rfl rfl rfl rfl rfl) h.2
 
 theorem good_clear (A : Arith F) (au : Automation F) : Good A (Automation.clear A au) := by
+  refine ⟨?_, fun _ => rfl⟩
   intro hu; simp [Automation.clear] at hu
+
+/-- what `bindInfo` leaves in the fields the property does not look at -/
+theorem bindInfo_bound (A : Arith F) (au au1 : Automation F) (path : Bytes) (p : PortInfo F)
+    (hb : bindInfo A au path p = some au1) : au1.bound = some (path, p) ∧ au1.used = true := by
+  unfold bindInfo at hb
+  cases hF : p.hasF <;> cases hT : p.hasT <;> cases hmn : p.min <;> cases hmx : p.max <;>
+    cases hs : p.scaleLog <;>
+    simp only [hF, hT, hmn, hmx, hs, Bool.false_eq_true, ↓reduceIte, Char.reduceEq,
+      Option.some.injEq, reduceCtorEq] at hb <;>
+    first
+      | (subst hb; exact ⟨rfl, rfl⟩)
+      | skip
 
 theorem portUsable_some (port : Option (PortInfo F)) (p : PortInfo F) (h : portUsable port = some p) :
     port = some p ∧ portUsable (some p) = some p := by
@@ -1114,9 +1131,10 @@ theorem portUsable_some (port : Option (PortInfo F)) (p : PortInfo F) (h : portU
         simp_all
 
 theorem good_bound (A : Arith F) (au au1 : Automation F) (path : Bytes) (p : PortInfo F)
-    (hw : PortWF A p) (hp : portUsable (some p) = some p) (hb : bindInfo A au path p = some au1) :
+    (hw : PortWF A p) (hp : portUsable (some p) = some p) (hl : path.length ≤ 127)
+    (hb : bindInfo A au path p = some au1) :
     (au1.used = true → FromPort A au1) :=
-  fun _ => ⟨au, au1, path, p, hw, hp, hb, rfl, rfl, rfl, rfl, rfl⟩
+  fun _ => ⟨au, au1, path, p, hw, hp, hl, hb, (bindInfo_bound A au au1 path p hb).1, rfl, rfl, rfl, rfl, rfl⟩
 
 theorem allAutos_set_slot (m : Mgr F) (P : Automation F → Prop) (s : Nat) (sl sl1 : Slot F)
     (_hsl : m.slots[s]? = some sl) (ha : AllAutos m P) (h1 : ∀ au ∈ sl1.autos, P au) (l : Int) :
@@ -1127,7 +1145,7 @@ theorem allAutos_set_slot (m : Mgr F) (P : Automation F → Prop) (s : Nat) (sl 
   · exact h1 au hau
 
 theorem good_createBinding (A : Arith F) (m m' : Mgr F) (s : Int) (path : Bytes) (port : Option (PortInfo F))
-    (learn : Bool) (hwf : ∀ p, port = some p → PortWF A p)
+    (learn : Bool) (hlen : path.length ≤ 127) (hwf : ∀ p, port = some p → PortWF A p)
     (hc : createBinding A m s path port learn = some m') (ha : AllAutos m (Good A)) : AllAutos m' (Good A) := by
   rcases createBinding_cases A m m' s path port learn hc with ⟨rfl, _⟩ | ⟨p, sl, ind, au, au1, hp, _, hsl, _, hau, hbi, rfl⟩
   · exact ha
@@ -1137,12 +1155,17 @@ theorem good_createBinding (A : Arith F) (m m' : Mgr F) (s : Int) (path : Bytes)
     simp only at hx
     rcases List.mem_or_eq_of_mem_set hx with h | rfl
     · exact ha sl (List.mem_of_getElem? hsl) x h
-    · apply good_remap
-      intro hu
-      exact fromPort_congr A au1 _ (good_bound A au au1 path p (hwf p hport) hp' hbi (by simpa using hu)) rfl rfl rfl rfl rfl
+    · have hb1 := bindInfo_bound A au au1 path p hbi
+      apply good_remap
+      · intro hu
+        exact fromPort_congr A au1 _ (good_bound A au au1 path p (hwf p hport) hp' hlen hbi (by simpa using hu))
+          rfl rfl rfl rfl rfl rfl
+      · intro hu
+        have : au1.used = false := by simpa using hu
+        rw [hb1.2] at this; cases this
 
 theorem good_setSlotSubPath (A : Arith F) (m m' : Mgr F) (s j : Int) (path : Bytes) (port : Option (PortInfo F))
-    (hwf : ∀ p, port = some p → PortWF A p)
+    (hlen : path.length ≤ 127) (hwf : ∀ p, port = some p → PortWF A p)
     (hc : setSlotSubPath A m s j path port = some m') (ha : AllAutos m (Good A)) : AllAutos m' (Good A) := by
   unfold setSlotSubPath at hc
   split at hc
@@ -1169,7 +1192,8 @@ theorem good_setSlotSubPath (A : Arith F) (m m' : Mgr F) (s j : Int) (path : Byt
                   simp only at hx
                   rcases List.mem_or_eq_of_mem_set hx with h | rfl
                   · exact ha sl (List.mem_of_getElem? hsl) x h
-                  · exact good_remap A au1 (good_bound A au au1 path p (hwf p hport) hp' hbi)) m.learnLen
+                  · exact good_remap A au1 (good_bound A au au1 path p (hwf p hport) hp' hlen hbi)
+                      (fun hu => by rw [(bindInfo_bound A au au1 path p hbi).2] at hu; cases hu)) m.learnLen
               exact this
 
 theorem good_clearSlot (A : Arith F) (m : Mgr F) (s : Int) (ha : AllAutos m (Good A)) :
@@ -1237,11 +1261,11 @@ theorem good_step (A : Arith F) (m m' : Mgr F) (op : Op F) (ms : List (Msg F)) (
   | bind s path port learn =>
     simp only [step, Option.map_eq_some_iff, Prod.mk.injEq] at hs
     obtain ⟨m1, hc, rfl, _⟩ := hs
-    exact good_createBinding A m m1 s path port learn hwf hc ha
+    exact good_createBinding A m m1 s path port learn hwf.1 hwf.2 hc ha
   | setPath s j path port =>
     simp only [step, Option.map_eq_some_iff, Prod.mk.injEq] at hs
     obtain ⟨m1, hc, rfl, _⟩ := hs
-    exact good_setSlotSubPath A m m1 s j path port hwf hc ha
+    exact good_setSlotSubPath A m m1 s j path port hwf.1 hwf.2 hc ha
   | clearSlot s =>
     simp only [step, Option.some.injEq, Prod.mk.injEq] at hs
     obtain ⟨rfl, _⟩ := hs
@@ -1280,11 +1304,13 @@ theorem good_step (A : Arith F) (m m' : Mgr F) (op : Op F) (ms : List (Msg F)) (
     exact allAutos_of_autosOf_eq (autosOf_handleMidi ..) ha
 
 theorem good_init (A : Arith F) (n p : Nat) : AllAutos (Mgr.init A n p) (Good A) := by
-  intro sl hsl au hau hu
+  intro sl hsl au hau
   simp only [Mgr.init, List.mem_replicate] at hsl
   rw [hsl.2] at hau
   simp only [Slot.init, List.mem_replicate] at hau
-  rw [hau.2] at hu
+  rw [hau.2]
+  refine ⟨?_, fun _ => rfl⟩
+  intro hu
   simp [Automation.init] at hu
 
 /-! ### invariant of reachable states -/
@@ -1478,7 +1504,7 @@ theorem mapping_ordered {A : Arith F} (L : Laws A) (mn mx gain offset : F) (hm :
 
 theorem fromPort_facts {A : Arith F} (L : Laws A) (au : Automation F) (h : FromPort A au) :
     (au.ty = 'i' ∨ au.ty = 'f' ∨ au.ty = 'T') ∧ A.le au.pmin au.pmax = true := by
-  obtain ⟨au0, b, path, p, ⟨hw, hwT⟩, _, hb, _, e2, e3, e4, _⟩ := h
+  obtain ⟨au0, b, path, p, ⟨hw, hwT⟩, _, _, hb, _, _, e2, e3, e4, _⟩ := h
   rw [e2, e3, e4]
   unfold bindInfo at hb
   by_cases hF : p.hasF = true
@@ -1535,40 +1561,100 @@ theorem emit_ok {A : Arith F} (L : Laws A) (au : Automation F) (x : F) (msg : Ms
   unfold emit at hmsg
   by_cases hu : au.used = true
   · refine ⟨hu, ?_⟩
-    obtain ⟨hty, hle⟩ := fromPort_facts L au (hg hu).1
+    obtain ⟨hty, hle⟩ := fromPort_facts L au (hg.1 hu).1
     simp only [hu, Bool.not_true, Bool.false_eq_true, ↓reduceIte] at hmsg
     rcases hty with hi | hf | hT
     · have hr := clamp_range L au.pmin au.pmax
         (A.add32 (A.mul32 x (A.sub32 au.cp3 au.cp1)) au.cp1) hle
-      simp only [hi, ↓reduceIte, List.mem_singleton] at hmsg
-      subst hmsg
-      exact ⟨rfl, Or.inl ⟨hi, rfl, _, rfl, L.toInt_mono _ _ (L.roundf_mono _ _ hr.1),
-        L.toInt_mono _ _ (L.roundf_mono _ _ hr.2)⟩⟩
+      simp only [hi, ↓reduceIte] at hmsg
+      by_cases hl : au.logScale = true
+      · simp only [hl, ↓reduceIte, List.mem_singleton] at hmsg
+        subst hmsg
+        exact ⟨rfl, Or.inr (Or.inl ⟨hi, hl, rfl, _, rfl,
+          L.toInt_mono _ _ (L.roundf_mono _ _ (L.expf_mono _ _ hr.1)),
+          L.toInt_mono _ _ (L.roundf_mono _ _ (L.expf_mono _ _ hr.2))⟩)⟩
+      · have hl' : au.logScale = false := by simpa using hl
+        simp only [hl', Bool.false_eq_true, ↓reduceIte, List.mem_singleton] at hmsg
+        subst hmsg
+        exact ⟨rfl, Or.inl ⟨hi, hl', rfl, _, rfl, L.toInt_mono _ _ (L.roundf_mono _ _ hr.1),
+          L.toInt_mono _ _ (L.roundf_mono _ _ hr.2)⟩⟩
     · have hr := clamp_range L au.pmin au.pmax
         (A.add32 (A.mul32 x (A.sub32 au.cp3 au.cp1)) au.cp1) hle
       simp only [hf, show ¬ ('f' = 'i') by decide, ↓reduceIte] at hmsg
       by_cases hl : au.logScale = true
       · simp only [hl, ↓reduceIte, List.mem_singleton] at hmsg
         subst hmsg
-        exact ⟨rfl, Or.inr (Or.inr (Or.inl ⟨hf, hl, rfl, _, rfl, L.expf_mono _ _ hr.1, L.expf_mono _ _ hr.2⟩))⟩
+        exact ⟨rfl, Or.inr (Or.inr (Or.inr (Or.inl ⟨hf, hl, rfl, _, rfl, L.expf_mono _ _ hr.1, L.expf_mono _ _ hr.2⟩)))⟩
       · have hl' : au.logScale = false := by simpa using hl
         simp only [hl', Bool.false_eq_true, ↓reduceIte, List.mem_singleton] at hmsg
         subst hmsg
-        exact ⟨rfl, Or.inr (Or.inl ⟨hf, hl', rfl, _, rfl, hr.1, hr.2⟩)⟩
+        exact ⟨rfl, Or.inr (Or.inr (Or.inl ⟨hf, hl', rfl, _, rfl, hr.1, hr.2⟩))⟩
     · simp only [hT, show ¬ ('T' = 'i') by decide, show ¬ ('T' = 'f') by decide, ↓reduceIte,
         decide_true, Bool.true_or, List.mem_singleton] at hmsg
       subst hmsg
-      refine ⟨rfl, Or.inr (Or.inr (Or.inr ⟨hT, ?_, rfl⟩))⟩
+      refine ⟨rfl, Or.inr (Or.inr (Or.inr (Or.inr ⟨hT, ?_, rfl⟩)))⟩
       simp only
       split
       · left; rfl
       · right; rfl
   · simp [hu] at hmsg
 
+/-- what `bindInfo` stores, in terms of the port's declared type and range -/
+theorem bindInfo_spec (A : Arith F) (au0 b : Automation F) (path : Bytes) (p : PortInfo F)
+    (hw : PortWF A p) (hl : path.length ≤ 127) (hb : bindInfo A au0 path p = some b) :
+    b.path = path ∧ b.ty = portType p ∧ b.logScale = p.scaleLog ∧
+    ∃ lo hi, portRange A p = some (lo, hi) ∧
+      (p.scaleLog = false → b.pmin = lo ∧ b.pmax = hi) ∧
+      (p.scaleLog = true → b.pmin = A.logf lo ∧ b.pmax = A.logf hi) := by
+  obtain ⟨_, hwT⟩ := hw
+  unfold bindInfo at hb
+  have htake : List.take 127 path = path := List.take_of_length_le hl
+  cases hF : p.hasF <;> cases hT : p.hasT <;> cases hmn : p.min <;> cases hmx : p.max <;>
+    cases hs : p.scaleLog <;> cases hlm : p.logmin <;>
+    simp only [hF, hT, hmn, hmx, hs, hlm, Bool.false_eq_true, ↓reduceIte, Char.reduceEq,
+      Option.some.injEq, reduceCtorEq] at hb <;>
+    first
+      | exact absurd ((hwT hF hT).symm.trans hs) (by decide)
+      | (subst hb
+         simp [portType, portRange, hF, hT, hmn, hmx, hs, hlm, htake]
+         done)
+      | (subst hb
+         simp [portType, portRange, hF, hT, hmn, hmx, hs, hlm, htake]
+         exact ⟨_, _, ⟨rfl, rfl⟩, rfl, rfl⟩)
+      | skip
+
+/-- `MsgOK` for an automation that still holds what was bound is the specification `MsgOKPort`
+    for the port its ghost field remembers -/
+theorem msgOK_port (A : Arith F) (au : Automation F) (msg : Msg F) (h : FromPort A au)
+    (hm : MsgOK A au msg) :
+    ∃ path p, au.bound = some (path, p) ∧ PortWF A p ∧ portUsable (some p) = some p ∧
+      MsgOKPort A path p msg := by
+  obtain ⟨au0, b, path, p, hw, hp, hl, hb, e0, e1, e2, e3, e4, e5⟩ := h
+  obtain ⟨s1, s2, s3, lo, hi, hr, hlin, hlog⟩ := bindInfo_spec A au0 b path p hw hl hb
+  obtain ⟨ha, hm⟩ := hm
+  refine ⟨path, p, e0, hw, hp, ?_, lo, hi, hr, ?_⟩
+  · rw [ha, e1, s1]
+  · rw [e2, s2, e5, s3, e3, e4] at hm
+    rcases hm with ⟨h1, h2, h3, n, h4, h5, h6⟩ | ⟨h1, h2, h3, n, h4, h5, h6⟩ |
+      ⟨h1, h2, h3, x, h4, h5, h6⟩ | ⟨h1, h2, h3, x, h4, h5, h6⟩ | ⟨h1, h2, h3⟩
+    · obtain ⟨p1, p2⟩ := hlin h2
+      rw [p1] at h5; rw [p2] at h6
+      exact Or.inl ⟨h1, h2, h3, n, h4, h5, h6⟩
+    · obtain ⟨p1, p2⟩ := hlog h2
+      rw [p1] at h5; rw [p2] at h6
+      exact Or.inr (Or.inl ⟨h1, h2, h3, n, h4, h5, h6⟩)
+    · obtain ⟨p1, p2⟩ := hlin h2
+      rw [p1] at h5; rw [p2] at h6
+      exact Or.inr (Or.inr (Or.inl ⟨h1, h2, h3, x, h4, h5, h6⟩))
+    · obtain ⟨p1, p2⟩ := hlog h2
+      rw [p1] at h5; rw [p2] at h6
+      exact Or.inr (Or.inr (Or.inr (Or.inl ⟨h1, h2, h3, x, h4, h5, h6⟩)))
+    · exact Or.inr (Or.inr (Or.inr (Or.inr ⟨h1, h2, h3⟩)))
+
 theorem emit_mono {A : Arith F} (L : Laws A) (au : Automation F) (x y : F) (hg : Good A au)
     (hu : au.used = true) (hgain : A.le A.zero au.gain = true) (hxy : A.le x y = true) :
     MsgsLe A (emit A au x) (emit A au y) := by
-  obtain ⟨hfp, hcp⟩ := hg hu
+  obtain ⟨hfp, hcp⟩ := hg.1 hu
   obtain ⟨hty, hm⟩ := fromPort_facts L au hfp
   have hv : A.le (A.add32 (A.mul32 x (A.sub32 au.cp3 au.cp1)) au.cp1)
            (A.add32 (A.mul32 y (A.sub32 au.cp3 au.cp1)) au.cp1) = true := by
@@ -1578,8 +1664,13 @@ theorem emit_mono {A : Arith F} (L : Laws A) (au : Automation F) (x y : F) (hg :
   unfold emit
   simp only [hu, Bool.not_true, Bool.false_eq_true, ↓reduceIte]
   rcases hty with hi | hf | hT
-  · simp only [hi, ↓reduceIte, MsgsLe, and_true]
-    exact ⟨rfl, rfl, L.toInt_mono _ _ (L.roundf_mono _ _ (clamp_mono L _ _ _ _ hm hv))⟩
+  · simp only [hi, ↓reduceIte]
+    by_cases hl : au.logScale = true
+    · simp only [hl, ↓reduceIte, MsgsLe, and_true]
+      exact ⟨rfl, rfl, L.toInt_mono _ _ (L.roundf_mono _ _ (L.expf_mono _ _ (clamp_mono L _ _ _ _ hm hv)))⟩
+    · have hl' : au.logScale = false := by simpa using hl
+      simp only [hl', Bool.false_eq_true, ↓reduceIte, MsgsLe, and_true]
+      exact ⟨rfl, rfl, L.toInt_mono _ _ (L.roundf_mono _ _ (clamp_mono L _ _ _ _ hm hv))⟩
   · simp only [hf, show ¬ ('f' = 'i') by decide, ↓reduceIte]
     by_cases hl : au.logScale = true
     · simp only [hl, ↓reduceIte, MsgsLe, and_true]
